@@ -62,6 +62,8 @@ class FakeServer:
         self.stale_total = 0        # the result set grew by this many documents after the first page's '_meta.total' was computed
         self.ignore_where = False   # fault: a lenient / clock-skewed server that returns documents outside the requested window
         self.extra = {}        # site -> {"docs", "pages", "plan", "selected"}: further result sets served concurrently
+        self.cursor_mode = False    # cursor-style paging: every page carries the SAME 'next' href; the server keeps the position
+        self._cursor_pos = 0
 
     def add_site(self, site, docs, pages):
         """A second/third result set, keyed by site, so that several client generators can be alive at once."""
@@ -106,6 +108,8 @@ class FakeServer:
                 "_meta": {"page": k + 1, "max_results": max([1] + list(sizes)), "total": max(0, len(sel) - self.stale_total)}}
         if k + 1 < len(sizes):
             href = "sessions/%s?page=%d&tok=%d" % (site, k + 2, 7919 * (k + 2))
+            if self.cursor_mode and site == getattr(self, "_site", None) and site not in self.extra:
+                href = "sessions/%s?cursor=next" % site
             body["_links"]["next"] = {"href": href, "title": "next page"}
         return body
 
@@ -142,9 +146,13 @@ class FakeServer:
                 sizes.append(rest)
             st["plan"] = sizes
             return Response(self._page(0, xsite))
-        if "page" in q and self._plan is not None:
+        if "cursor" in q and self._plan is not None:
+            self._cursor_pos += 1
+            k = self._cursor_pos
+        elif "page" in q and self._plan is not None:
             k = int(q["page"]) - 1
         else:
+            self._cursor_pos = 0
             m = re.match(r"^sessions/(\w+?)(/ts/)?$", p.path)
             if not m:
                 return Response({"_error": {"code": 404}}, broken=False)
